@@ -98,7 +98,7 @@ SeqRange(s) == {s[i] : i \in 1..Len(s)}
 -----------------------------------------------------------------------------
 (* part E: ResponseEmit's clause operators on the record (fields c, ev, pieces, begun, closes, raised,
    sendFailed, exc, errors - the observation format of ResponseEmitTrace) *)
-RE == INSTANCE ResponseEmit WITH RenderSetsType <- FALSE, BodilessByLine <- FALSE, ForgetCloseOnFault <- FALSE, StaleLengthOnRenderFault <- FALSE, StatusStringAsIs <- FALSE,
+RE == INSTANCE ResponseEmit WITH RenderSetsType <- FALSE, BodilessByLine <- FALSE, ForgetCloseOnFault <- FALSE, StaleLengthOnRenderFault <- FALSE, StatusStringAsIs <- FALSE, ReturnOnDisconnect <- FALSE,
           c0 <- T.c, c <- T.c, pc <- "done", ev <- T.ev, k <- 0, hand <- -1, sends <- 0,
           begun <- T.begun, closes <- T.closes, raised <- T.raised, sendFailed <- T.sendFailed
 
@@ -177,8 +177,8 @@ RHO == INSTANCE RespHeadersOps
 StoreMap == RHO!PutAll(RHO!EmptyMap, H.model)          \* the header store at emission, case-folded
 WantMap  == IF H.media # "" /\ "content-type" \notin DOMAIN StoreMap THEN RHO!Put(StoreMap, "content-type", H.media) ELSE StoreMap
 
-RH == INSTANCE RespHeaders WITH NoLower <- {}, AppendGuard <- TRUE, FreshCookie <- TRUE, UseSecureDefault <- TRUE,
-          hdr <- EmHdr, raw <- Split.raw, jar <- EmJar, sd <- FALSE, model <- WantMap, nraw <- H.nraw,
+RH == INSTANCE RespHeaders WITH NoLower <- {}, AppendGuard <- TRUE, FreshCookie <- TRUE, UseSecureDefault <- TRUE, SnapshotDefault <- FALSE,
+          hdr <- EmHdr, raw <- Split.raw, jar <- EmJar, sd <- FALSE, opt <- FALSE, model <- WantMap, nraw <- H.nraw,
           written <- Written, last <- [op |-> "emit", sc |-> FALSE, err |-> FALSE, res |-> <<>>, ck |-> "", sec |-> ""]
 
 HdrSkip ==
